@@ -1099,6 +1099,10 @@ class Interp:
                         return out
                 if meth in ("wrapping_add", "wrapping_sub"):
                     return [(st, mk_obj("%s(%s, %s)" % (meth, show(xs[0]), show(xs[1])), ity))]
+                if meth in ("overflowing_add", "overflowing_sub") and len(xs) == 2:
+                    # (the wrapped result, whether it wrapped): `.0` is exactly wrapping_add / wrapping_sub
+                    w = mk_obj("%s(%s, %s)" % (meth.replace("overflowing", "wrapping"), show(xs[0]), show(xs[1])), ity)
+                    return [(st, V("tuple", fields=[w, mk_obj("%s(%s, %s).1" % (meth, show(xs[0]), show(xs[1])), "bool")]))]
                 if meth in ASCII_CLASSES and len(xs) == 1:
                     return self.in_ranges(st, xs[0].lin, ASCII_CLASSES[meth])
         # integer `TryFrom` between primitive integer types: Ok(the same number) exactly when it fits the target type
